@@ -89,7 +89,8 @@ def parse_output(stdout, style):
             i += 1
             continue
         m = RICH_HEAD_RE.match(ln)
-        if m and i + 1 < len(lines) and RICH_LOC_RE.match(lines[i + 1]):
+        # the quiet style is read in its own format only (--luacheck prints parse errors as rich blocks, so it accepts them)
+        if style != "quiet" and m and i + 1 < len(lines) and RICH_LOC_RE.match(lines[i + 1]):
             loc = RICH_LOC_RE.match(lines[i + 1])
             diags.append({"file": loc.group(1), "line": int(loc.group(2)), "col": int(loc.group(3)),
                           "severity": m.group(1), "code": m.group(2), "message": m.group(3)})
